@@ -144,10 +144,41 @@ def main():
             if env["mid"] != want_mid or env["end"] != want_end:
                 rac.fail(key, f"C01 {tgt} = f1(x); z = {tgt} + 0.5; {tgt} = f2(x) [{how}]; x = 3.0: (y, z) = {env['mid']} then {env['end']}, "
                          f"the new definition gives {want_mid} then {want_end}", scr, "Manager.set_value")
+    rac.section("owner-expressions", "definitions that take an item or an attribute OF AN EXPRESSION ((a + b)[1], (c * 2).imag, (a + b)[i]), "
+                "with a dependant, followed by whole, element-wise and in-place changes of the inputs: every location follows its definition",
+                "4 definitions x 4 kinds of change")
+    OE = {"item of a sum": ("r['z'] = (r['a'] + r['b'])[1]", lambda d: (d['a'] + d['b'])[1]),
+          "attribute of a product": ("r['z'] = (r['c'] * 2).imag", lambda d: (d['c'] * 2).imag),
+          "computed item of a sum": ("r['z'] = (r['a'] + r['b'])[r['i']]", lambda d: (d['a'] + d['b'])[d['i']]),
+          "item of an item of a sum": ("r['z'] = ((r['a'] + r['b']) * 2)[0] + 1", lambda d: ((d['a'] + d['b']) * 2)[0] + 1)}
+    CH = {"whole input": "r['a'] = np.array([10.0, 20.0, 30.0])", "element of an input": "r['b'][1] = -5.0", "in-place": "r['a'] += 1.5",
+          "other inputs": "r['c'] = 3 - 4j; r['i'] = 2"}
+    import numpy as np
+    for dn, (dsrc, py) in OE.items():
+        for cn, csrc in CH.items():
+            src = ["import xdeps", "import numpy as np",
+                   "d = {'a': np.array([1.0, 2.0, 3.0]), 'b': np.array([0.5, 0.25, 0.125]), 'c': 1 + 2j, 'i': 0, 'z': 0.0, 'w': 0.0}",
+                   "m = xdeps.Manager(); r = m.ref(d, 'd')", dsrc, "r['w'] = r['z'] * 10", csrc]
+            key = f"owner-expression {dn} / {cn}"
+            scr = PRELUDE + "\n".join(src) + "\nwant = " + {"item of a sum": "(d['a'] + d['b'])[1]", "attribute of a product": "(d['c'] * 2).imag",
+                                                            "computed item of a sum": "(d['a'] + d['b'])[d['i']]",
+                                                            "item of an item of a sum": "((d['a'] + d['b']) * 2)[0] + 1"}[dn] + \
+                "\nassert d['z'] == want and d['w'] == want * 10, (d['z'], d['w'], want)\n"
+            rac.case(key, sample=dict(definition=dsrc, change=csrc))
+            env = {}
+            try:
+                exec("\n".join(src), env)
+                d_ = env["d"]
+                want = py(d_)
+                if not (d_["z"] == want and d_["w"] == want * 10):
+                    rac.fail(key, f"C01 {dsrc}; w = z * 10; then {csrc}: z = {d_['z']!r}, w = {d_['w']!r}, the definitions give {want!r}, {want * 10!r}",
+                             scr, "MutableRef._get_dependencies")
+            except Exception as ex:      # noqa
+                rac.fail(key, f"C01 {key}: raised {type(ex).__name__}: {ex}", scr, "Manager.set_value")
     rac.section("chains", "chains v[i+1] = v[i] + 1 of length N defined consumer-before-producer, then v[0] assigned",
-                "N in 50, 1500, 4000", exhaustive=False)
+                "N in 50, 1500, 6000", exhaustive=False)
     import xdeps
-    for n in (50, 1500, 4000):
+    for n in (50, 1500, 6000):
         d = {i: 0.0 for i in range(n + 1)}
         m = xdeps.Manager()
         r = m.ref(d, "d")
